@@ -64,6 +64,7 @@ EXTRA += [gen_class.class_program("B", True, False, 1, "member-in-inner", "funct
 
 def run(chk, build, replay=None):
     common.standard_proof_part(chk, build, VFILES)
+    propkit.replay_known(chk, "C12")      # listed design-level deviations of this property: re-confirmed on the real code
     chk.trusted += [
         "C12: the class object is created (empty) BEFORE its body runs and filled afterwards; what class-creation hooks observe "
         "(metaclass __new__/__prepare__ seeing the namespace, __set_name__, __slots__, __doc__, implicit __hash__) is outside "
